@@ -138,11 +138,13 @@ Definition read_page (s : pystr) : option (pystr * list (pystr * pystr)) :=
     end
   end.
 
-(* ---- end-session: "{}?{}".format(uri, urlencode({"state": state})) ---- *)
+(* ---- end-session: uri, then an ampersand if the uri already has a question mark else a question mark,
+   then urlencode of the single parameter state ---- *)
 Definition logout_target (uri : pystr) (state : option pystr) : res pystr :=
   match state with
   | None => Ok uri
-  | Some s => b <- utf8 s ;; Ok (uri ++ 63 :: PS "state="%string ++ quote_plus b)
+  | Some s => b <- utf8 s ;;
+              Ok (uri ++ (if existsb (fun c => c =? 63) uri then 38 else 63) :: PS "state="%string ++ quote_plus b)
   end.
 
 (* ---- byte-level parse_qsl(keep_blank_values=True) used to state what the receiver decodes ---- *)
